@@ -177,11 +177,13 @@ class MinGenSet():
                 var_type="integer"
             )
 
+        # With multiplicities, a number (and thus a product) can exceed the total
+        product_ub = max([self.total] + self.numbers)
         self.pi_vars = self.solver.add_variables(
             self.x_indexes, 
             name_prefix="pi", 
             lb=0, 
-            ub=self.total, 
+            ub=product_ub, 
             var_type="integer" if self.weight_type == int else "continuous"
         )
 
@@ -218,7 +220,7 @@ class MinGenSet():
                             continuous_var=self.genset_vars[(i)],
                             product_var=self.pi_vars[(i, j)],
                             lb=0,
-                            ub=self.total,
+                            ub=product_ub,
                             name=f"pi_i={i}_j={j}",
                         )
 
